@@ -42,6 +42,10 @@ func getPlan(class string, wanted, other *vh.Header) (plan, bool) {
 		h := wanted.Clone()
 		h.Chain = "otherchain"
 		return plan{items: []item{okItem(h)}, end: "close"}, true
+	case "nochain":
+		h := wanted.Clone()
+		h.Chain = ""
+		return plan{items: []item{okItem(h)}, end: "close"}, true
 	case "invalid":
 		h := wanted.Clone()
 		h.Invalid = true
@@ -117,7 +121,9 @@ func TestGet(t *testing.T) {
 						hosts[i+1].RemoveStreamHandler(exProto)
 					}
 				}
+				noChainPin = mbt.Bool(in, "nopin") // replay-only dimension: a client that does not pin a chain id still validates
 				ex := newExchange(t, hosts[0], trusted, 0)
+				noChainPin = false
 				synctest.Wait()
 				type out struct {
 					h   *vh.Header
